@@ -10,4 +10,4 @@ def run(c):
     ]
     c.outside += ['more than 3 sessions; concurrent session creation', 'BasicHTTP processor (C20)']
     c.run_m('h_c15_route', expect_checks=(1501, 1502, 1503, 1504, 1505, 1506, 1507), expect_cover=(1501,),
-            bounds={'targets': "'' #_internal #_scxml_<id> #_parent #_<invokeid>, literal and targetexpr", 'type': 'default / scxml / full URI', 'payload': 'none / param / namelist / content / namelist+param', 'value': 'any i64'}, diff_samples=4)
+            bounds={'targets': "'' #_internal #_scxml_<id> #_parent #_<invokeid>, literal and targetexpr", 'type': 'default / scxml / full URI', 'payload': 'none / param / namelist / content / namelist+param / param location naming an array', 'value': 'any i64'}, diff_samples=4)
